@@ -3,8 +3,9 @@
 //
 // Contract (from the property: "each rendered source excerpt shows the line the diagnostic refers to
 // with the marker under the reported columns"), for a one-line `text` (no '\n') with
-//      first_non_ws <= start <= end < number of chars of text
-// (first_non_ws = char index of the first non-blank character; the diagnostic lies on a token):
+//      first_non_ws <= start <= end <= number of chars of text
+// (first_non_ws = char index of the first non-blank character; the diagnostic lies on a token, possibly on the
+//  line terminator, which sits one past the last character of the line):
 //   * no panic;
 //   * exactly three lines, each terminated by '\n':   "{spc} |"
 //                                                     " {line+1} | {text.trim()}"
@@ -12,8 +13,10 @@
 //     where spc = (decimal width of line+1) + 1 spaces,
 //           carets = exactly end-start+1 times '^', nothing after them,
 //           blanks = exactly start-first_non_ws characters, all whitespace: the k-th one is the k-th
-//                    character of the shown (left-trimmed) line if that is a blank (so tabs keep their
-//                    width), else ' '   ==> the marker starts under character `start` of the line.
+//                    character of the shown (left-trimmed) line if that is a tab or a printing blank (so
+//                    tabs and wide spaces keep their width), else ' ' -- in particular a carriage return
+//                    left on the line of a CR/LF file is NOT copied: it would send the marker back to
+//                    column 0   ==> the marker starts under character `start` of the line.
 // `reference()` renders exactly that by hand (no std::fmt, character pushes only) and the harness asserts
 // `format_region(..) == reference(..)` byte for byte.
 //
@@ -96,7 +99,7 @@ mod verif_kani_excerpt {
         out.push_str(" | ");
         let mut k = first;
         while k < start {
-            out.push(if k < n && chars[k].is_whitespace() { chars[k] } else { ' ' });
+            out.push(if k < n && (chars[k] == '\t' || (chars[k].is_whitespace() && !chars[k].is_control())) { chars[k] } else { ' ' });
             k += 1;
         }
         let mut k = start;
@@ -126,7 +129,7 @@ mod verif_kani_excerpt {
         // the instance must lie inside the contract's precondition
         let mut k = 0;
         while k < chars.len() { assert!(chars[k] != '\n'); k += 1; }
-        assert!(first_non_ws(chars) <= start && start <= end && end < chars.len());
+        assert!(first_non_ws(chars) <= start && start <= end && end <= chars.len());
         let mut text = String::with_capacity(32);
         let mut k = 0;
         while k < chars.len() { text.push(chars[k]); k += 1; }
@@ -159,5 +162,7 @@ mod verif_kani_excerpt {
         c_nbsp_between = (['a', '\u{a0}', 'b'], 0, 2, 2);                    // panics: replace_range(2..) inside U+00A0
         c_ideographic_indent = (['\u{3000}', 'a', 'b'], 0, 2, 2);            // panics: text.get(1..) is None, base empty, replace_range(1..)
         c_ideographic_shift = (['a', '\u{3000}', ' ', ' ', 'b'], 0, 4, 4);   // no panic, marker two columns too far left
+        // CR/LF file: the line keeps its '\r', the diagnostic is on the line terminator one past it
+        c_crlf_newline_token = (['\t', 'a', 'd', 'd', '\r'], 3, 5, 5);
     }
 }
